@@ -56,7 +56,16 @@ def diagnose_global(adm, consts, trace, res, name, t, sh):
   from vf.oracle import admit, c01_diag
   out = {}
   try:
+    tree = pyast.parse(trace["src"])
+    ex = set(trace.get("executed_lines") or ())
     path, ft, fs, parent = admit.find_failure(adm, t, sh)
+    ip = c01_diag.inplace_signature(tree, name, ex)
+    if ip and not path:
+      out["inplace"] = ip
+    if path and path[0] in ("key", "value"):
+      pr = c01_diag.param_rebound_signature(tree, name, ex)
+      if pr:
+        out["param_rebound"] = pr
     out["path"] = list(path)
     out["leaf"] = brief(fs)
     al = c01_diag.alias_signature(trace, adm, consts, parent, fs)
@@ -64,7 +73,9 @@ def diagnose_global(adm, consts, trace, res, name, t, sh):
       out["alias"] = al
     defs = c01_diag.CAPTURE.get("defs")
     if res.ctx is not None and defs is not None and name in defs:
-      out["view"] = c01_diag.view_signature(res.ctx, defs[name], path, fs)
+      out["view"] = c01_diag.view_signature(res.ctx, defs[name], path, fs,
+                                            executed_lines=trace.get("executed_lines"),
+                                            def_ranges=c01_diag.def_ranges(tree))
   except Exception as e:  # pylint: disable=broad-except
     out["error"] = f"{type(e).__name__}: {e}"
   return out
@@ -79,6 +90,14 @@ def mechanism(v, dg):
     if dg.get("site"):
       return c01_diag.K_SITE
     vw = dg.get("view") or {}
+    if vw.get("notrun"):
+      return c01_diag.K_NOTRUN
+    if dg.get("outside_attr"):
+      return c01_diag.K_OUTSIDE_ATTR
+    if dg.get("param_rebound") and vw.get("invisible"):
+      return c01_diag.K_PARAM_REBOUND
+    if dg.get("inplace") and vw.get("invisible"):
+      return c01_diag.K_INPLACE
     if vw.get("reuse"):
       return c01_diag.K_REUSE
     if vw.get("sibling"):
@@ -175,6 +194,14 @@ def judge(src, trace, res, diag=None):
     if not ok:
       viol.append({"kind": "return", "name": qual, "line": line,
                    "declared": " | ".join(pytd_str(rt) for rt in rts), "value": brief(sh)})
+      if diag is not None and len(parts) == 2:
+        from vf.oracle import c01_diag
+        try:
+          hits = c01_diag.outside_attr_signature(pyast.parse(trace["src"]), set(trace.get("executed_lines") or ()))
+          if hits:
+            diag[qual] = {"outside_attr": hits}
+        except Exception as e:  # pylint: disable=broad-except
+          diag[qual] = {"error": str(e)}
   return items, viol
 
 
@@ -220,6 +247,7 @@ def run_one(src, limit=60, diagnose=False):
   tr = shapes.trace_program(src)
   if not tr["ok"]:
     return {"status": "raised", "error": tr["error"]}
+  tr["src"] = src
   signal.signal(signal.SIGALRM, _alarm)
   signal.alarm(limit)
   try:
